@@ -42,7 +42,9 @@ def refips_build():
 TBL_E = "41=a\n42=b\n"
 TBL_P = "10=a\n2021=b\n"
 FILES = {"e.tbl": TBL_E, "p.tbl": TBL_P, "blob.bin": bytes(range(16)), "inc.s": "incl:\n.dw incl\n", "badinc.s": "; included file with an error\n.bogus 1\n",
-         "bad.tbl": "41=a\n4=b\n43=c\n", "ev.ips": refips_build()}
+         "bad.tbl": "41=a\n4=b\n43=c\n", "ev.ips": refips_build(),
+         # files that exist ONLY in a sub-directory (a probe that names them without the directory must keep failing)
+         "sub/inc2.s": "subl:\n.dw subl\n", "sub/only.s": ".db 0x5a\n", "sub/only.bin": b"\x01\x02", "sub/only.tbl": "30=a\n"}
 
 EVENTS = {
     "valid": ("*=0x018000\nstart:\nlda.w #0x1234\n.dl start\n", "low_rom"),
@@ -64,6 +66,11 @@ EVENTS = {
     "fail-in-include": ("*=0x018000\n.db 1\n.include 'badinc.s'\n.db 2\n", "low_rom"),
     "missing-include": ("*=0x018000\n.db 1\n.include 'nosuchfile.s'\n", "low_rom"),
     "reloc-files": ("*=0x018000\n.include 'inc.s'\n.incbin 'blob.bin'\n@=0x7e2000\nr:\n.pointer r\n", "low_rom"),
+    "files-from-subdir": ("*=0x018000\n.include 'sub/inc2.s'\n.incbin 'sub/only.bin'\n.table 'sub/only.tbl'\n.text 'a'\n", "low_rom"),
+    # code BEFORE the first *= (assembled at the mapping's default start), through the string API and through the file API with
+    # an explicit mapping argument
+    "no-org": ("n0:\nlda.w #0x1234\n.db 1, 2, 3\njsr.w n0\n", "low_rom"),
+    "file-api-no-org": ("FILEAPI", None),
 }
 EVENT_NAMES = list(EVENTS)
 PROBES = {
@@ -84,9 +91,18 @@ PROBES = {
     "p-same-address-labels": ("*=0x018000\nfirst:\nsecond:\nthird:\nfourth:\n.db 1\nzeta:\nalpha:\nmid:\n.db 2\n{\nfirst:\nomega:\n}\n", "low_rom"),
     "p-narrow-operands": ("*=0x018000\n" + "".join(f"lda 0x{0x10 + i:02x}\nsta 0x{0x20 + i:02x},x\n" for i in range(60)) + "end:\n.dl end\n", "low_rom"),
     "p-map": (".map identifier=1 bank_range=0x10, 0x1f addr_range=0x8000, 0xffff mask=0x8000\n*=0x108000\nm:\n.dl m\n", "low_rom"),
+    "p-incbin-symbols": ("*=0x018000\n.incbin 'blob.bin'\n.dw blob_bin, blob_bin__size\n.incbin 'sub/only.bin'\n.dl sub_only_bin\n", "low_rom"),
+    "p-file-only-in-subdir": ("*=0x018000\n.db 1\n.include 'only.s'\n", "low_rom"),
+    "p-bin-only-in-subdir": ("*=0x018000\n.db 1\n.incbin 'only.bin'\n", "low_rom"),
+    "p-table-only-in-subdir": ("*=0x018000\n.table 'only.tbl'\n.text 'a'\n", "low_rom"),
+    "p-no-org": ("n0:\nlda.w #0x1234\nbra n0\njsr.w n0\nn1:\n.dl n1\n", "low_rom"),
+    "p-no-org-hirom": ("n0:\n.db 1\njmp.w n0\nn1:\n.dl n1\n", "high_rom"),
+    "p-file-api-low": ("n0:\nlda.w #0x1234\nbra n0\njsr.w n0\nn1:\n.dl n1\n*=0x018000\nf1:\n.dl f1\n", "file:low:ips"),
+    "p-file-api-high-sfc": ("n0:\n.db 1\njmp.w n0\nn1:\n.dl n1\n", "file:high:sfc"),
+    "p-file-api-default": ("n0:\n.db 1\njmp.w n0\nn1:\n.dl n1\n", "file:none:ips"),
 }
 PROBE_NAMES = list(PROBES)
-NONTRIVIAL_EVENTS = {"defines-names", "table", "custom-map", "hirom", "fail-scanner", "fail-parser", "fail-codegen", "fail-labelpass", "fail-emit", "cli", "fail-in-include", "missing-include", "block-argument", "ips-with-delta", "bad-table", "rewritten-table", "many-wide-operands"}
+NONTRIVIAL_EVENTS = {"defines-names", "table", "custom-map", "hirom", "fail-scanner", "fail-parser", "fail-codegen", "fail-labelpass", "fail-emit", "cli", "fail-in-include", "missing-include", "block-argument", "ips-with-delta", "bad-table", "rewritten-table", "many-wide-operands", "files-from-subdir", "no-org", "file-api-no-org"}
 
 
 def bound(tier):
@@ -101,7 +117,41 @@ def norm(text):
     return re.sub(r"0x[0-9a-f]{6,}", "0x?", str(text))
 
 
+def observe_file(src, mapping, fmt):
+    """The probe through the file API with an explicit mapping argument; observation = status, output file, labels."""
+    import signal
+    from a816.program import Program
+    with open("probe_f.s", "w") as f:
+        f.write(src)
+    signal.setitimer(signal.ITIMER_REAL, 10)
+    try:
+        try:
+            p = Program()
+            m = None if mapping == "none" else mapping
+            rc = p.assemble_as_patch("probe_f.s", "probe_f.out", m) if fmt == "ips" else p.assemble("probe_f.s", "probe_f.out", m)
+            status, err = ("ok" if rc == 0 else "err"), None
+        finally:
+            signal.setitimer(signal.ITIMER_REAL, 0)
+    except impl.Timeout:
+        return ("timeout",)
+    except Exception as e:  # noqa: BLE001
+        status, err, rc = "exc", type(e).__name__ + ": " + str(norm(e)), None
+    try:
+        with open("probe_f.out", "rb") as f:
+            data = f.read().hex()
+    except OSError:
+        data = None
+    try:
+        labels = [list(x) for x in p.resolver.get_all_labels()]
+    except Exception:  # noqa: BLE001
+        labels = None
+    return (status, rc, data, labels, err)
+
+
 def observe(src, rom):
+    if rom is not None and rom.startswith("file:"):
+        _, mapping, fmt = rom.split(":")
+        return observe_file(src, mapping, fmt)
     out = impl.assemble(src, rom=rom, filename="probe.s")
     return (out.status, [(a, b.hex()) for a, b in out.blocks], sorted(out.labels), sorted(out.symbols.items()), out.exc_type, norm(out.error),
             [list(x) for x in out.labels])  # last item: labels in the order get_all_labels() lists them (symbol-file order)
@@ -125,6 +175,17 @@ def do_event(name):
             sys.argv = saved
         return
     src, rom = EVENTS[name]
+    if src == "FILEAPI":
+        from a816.program import Program
+        with open("fa.s", "w") as f:
+            f.write("start0:\nlda.w #0x1234\njsr.w start0\n.db 1, 2, 3\n*=0x028000\n.db 4\n")
+        for fmt, mapping in (("ips", "low"), ("sfc", "high"), ("ips", None), ("ips", "low")):
+            try:
+                pr = Program()
+                (pr.assemble_as_patch if fmt == "ips" else pr.assemble)("fa.s", "fa.out", mapping)
+            except Exception:  # noqa: BLE001
+                pass
+        return
     if src == "REWRITE":
         # an assembly that loads p.tbl while the file has OTHER content; the file is put back afterwards
         impl.write_files({"p.tbl": "77=a\n78=b\n"})
@@ -278,7 +339,120 @@ def baseline():
     return _BASE
 
 
-CORE_EVENTS = ["many-wide-operands", "defines-names", "custom-map", "hirom", "fail-codegen", "fail-emit", "cli", "block-argument", "rewritten-table", "fail-in-include"]
+# ---- one Program OBJECT used for several sources ------------------------------------------------------------------
+# Names persist on a reused Program by design and scope replay is positional, so the probes below are flat (no blocks, scopes,
+# macros or loops - a second source with scopes is not supported by the pinned tree), define every name they use, start with
+# `*=` (the run address is not reset between sources), and only their blocks / status / error / own label values are compared.
+REUSE_EVENTS = {
+    "r-valid": "*=0x028000\nstart:\nloop:\n.db 1, 2, 3\nbne loop\n.dl start\n",
+    "r-fail-emit": "*=0x038000\n.db 0x51, 0x52\n{\n.dw nosuchsymbol\n}\n.db 3\n",
+    "r-fail-emit-late": "*=0x038000\nstart:\n.db 0x51\n*=0x039000\n.db 0x52, 0x53\nlda.w nosuchsymbol\n",
+    "r-fail-parse": "*=0x018000\n.db 1\n)\n",
+    "r-fail-scan": "*=0x018000\n.db 1\nlda.q 1\n",
+    "r-fail-codegen": "*=0x018000\n{\nnosuchmacro(1)\n}\n",
+    "r-scopes": "*=0x048000\n{\nea:\n.dw ea\n{\neb:\n.dw eb\n}\n}\n.scope ens {\nev = 3\n.db ev\n}\n",
+    "r-macro": ".macro pm(a) {\n.db a, a\n}\n*=0x058000\npm(5)\n",
+    "r-reloc": "*=0x068000\n@=0x7e2000\nr0:\n.pointer r0\n",
+    "r-table": ".table 'e.tbl'\n*=0x078000\n.text 'ab'\n",
+}
+REUSE_EVENT_NAMES = list(REUSE_EVENTS)
+REUSE_PROBES = {
+    "rp-flat": "*=0x018000\nstart:\n.db 7\nloop:\ndex\nbne loop\n.dl start\n.dw loop\n",
+    "rp-two-blocks": "*=0x018300\nt0:\n.db 1\n*=0x028300\nt1:\n.dl t0, t1\n",
+    "rp-fail": "*=0x018000\n.db 1\n.dw rp_missing_symbol\n",
+    "rp-branches": "*=0x018400\nstart:\nloop:\nnop\nbeq done\nbra loop\ndone:\nrts\njsr.w start\n",
+}
+REUSE_PROBE_NAMES = list(REUSE_PROBES)
+
+
+def _reuse_observe(prog, src):
+    import signal
+    w = impl.RecWriter()
+    signal.setitimer(signal.ITIMER_REAL, 10)
+    try:
+        try:
+            err = prog.assemble_string_with_emitter(src, "probe.s", w)
+            status, exc = ("ok" if err is None else "err"), None
+        finally:
+            signal.setitimer(signal.ITIMER_REAL, 0)
+    except impl.Timeout:
+        return ("timeout",)
+    except Exception as e:  # noqa: BLE001
+        status, err, exc = "exc", norm(e), type(e).__name__
+    try:
+        labels = sorted(prog.resolver.get_all_labels())
+    except Exception:  # noqa: BLE001
+        labels = None
+    return (status, [(a, b.hex()) for a, b in w.blocks], exc, norm(err), labels)
+
+
+def reuse_run(hist):
+    """In a forked child: the events of `hist` and then each probe twice, all on ONE Program object per probe."""
+    from a816.cpu.cpu_65c816 import RomType
+    from a816.program import Program
+    import_all()
+    impl.write_files(FILES)
+    obs = {}
+    for p in REUSE_PROBE_NAMES:
+        prog = Program()
+        prog.resolver.rom_type = RomType.low_rom
+        for ev in hist:
+            _reuse_observe(prog, REUSE_EVENTS[ev])
+        obs[p] = (_reuse_observe(prog, REUSE_PROBES[p]), _reuse_observe(prog, REUSE_PROBES[p]))
+    return obs
+
+
+def run_reuse(n, pre):
+    viol = []
+    outcomes = set()
+    evals = nt = transitions = 0
+    kind, base = in_child(lambda: reuse_run([]))
+    if kind != "ok":
+        return {"evals": 1, "nt_count": 0, "outcome": ["HARNESS"], "violations": [{"key": "independence:reuse-harness", "msg": str(base)}]}
+    own = {p: [tuple(x) for x in (base[p][0][4] or [])] for p in REUSE_PROBE_NAMES}
+
+    def view(o, p):
+        # labels: the probe's own (name, value) pairs must all be listed; leftovers of earlier sources are not compared
+        if len(o) < 5:
+            return o
+        have = {tuple(x) for x in (o[4] or [])}
+        return (o[0], o[1], o[2], o[3], [x for x in own[p] if x in have])
+
+    tails = [()] if n == len(pre) else itertools.product(range(len(REUSE_EVENT_NAMES)), repeat=n - len(pre))
+    for tail in tails:
+        hist = [REUSE_EVENT_NAMES[i] for i in tuple(pre) + tuple(tail)]
+        kind, obs = in_child(lambda h=hist: reuse_run(h))
+        evals += len(REUSE_PROBE_NAMES) * (2 + len(hist))
+        transitions += len(hist)
+        nt += 1 if hist else 0
+        if kind != "ok":
+            viol.append({"key": "independence:reuse-harness", "msg": f"{hist}: {obs}"})
+            continue
+        good = True
+        for p in REUSE_PROBE_NAMES:
+            first, second = view(obs[p][0], p), view(obs[p][1], p)
+            alone = view(base[p][0], p)
+            # Only SILENT differences count: a reused Program may refuse a further source (the pinned tree does so after a
+            # failure inside a block, or for a second source with scopes), but when it accepts one, the output must be the
+            # fresh output. A probe that fails when fresh is not compared (names of earlier sources persist by design).
+            for which, o in (("first", first), ("second", second)):
+                if o[0] == "ok" and alone[0] == "ok" and o != alone:
+                    viol.append({"key": f"independence:same-program-object:{p}:after-{hist[-1] if hist else 'nothing'}",
+                                 "msg": f"sources {hist} then probe {p} ({which} run) on ONE Program object are accepted with {o}; on a fresh Program the probe gives {alone}"})
+                    good = False
+                    break
+            if not good:
+                break
+            outcomes.add("reuse-refused" if first[0] != "ok" and alone[0] == "ok" else "reuse-same-as-fresh")
+        if not good:
+            outcomes.add("REUSE-DIFFERS")
+        if len(viol) > 12:
+            break
+    return {"evals": max(evals, 1), "nt_count": nt, "transitions": max(transitions, 1), "outcome": sorted(outcomes) or ["none"],
+            "violations": viol[:12], "depth": n}
+
+
+CORE_EVENTS = ["file-api-no-org", "files-from-subdir", "many-wide-operands", "defines-names", "custom-map", "hirom", "fail-codegen", "fail-emit", "cli", "block-argument", "rewritten-table", "fail-in-include"]
 
 
 def cases(tier, seed):
@@ -294,12 +468,21 @@ def cases(tier, seed):
     core = [EVENT_NAMES.index(e) for e in CORE_EVENTS]
     for pre in itertools.product(core, repeat=core_d - 1):
         yield ("hist-core", core_d, pre)
+    reuse_d = 3 if tier == "thorough" else 2
+    for n in range(0, reuse_d + 1):
+        if n <= 1:
+            yield ("reuse", n, ())
+        else:
+            for pre in itertools.product(range(len(REUSE_EVENT_NAMES)), repeat=n - 1):
+                yield ("reuse", n, pre)
 
 
 def describe(case, res):
     d = {"case": list(case), "outcome": res.get("outcome")}
     if case[0] in ("hist", "hist-core"):
         d["history_prefix"] = [EVENT_NAMES[i] for i in case[2]]
+    if case[0] == "reuse":
+        d["history_prefix"] = [REUSE_EVENT_NAMES[i] for i in case[2]]
     if res.get("example"):
         d["example"] = res["example"]
     return d
@@ -392,4 +575,6 @@ def run_hist(n, pre, core=False):
 def run_case(case):
     if case[0] == "fresh-interpreter":
         return run_fresh()
+    if case[0] == "reuse":
+        return run_reuse(case[1], case[2])
     return run_hist(case[1], case[2], core=(case[0] == "hist-core"))
